@@ -231,6 +231,7 @@ package server
 
 //@ func (github.com/cbeuw/Cloak/internal/server/usermanager.UserManager).AuthoriseNewSession
 //@   flag trusted
+//@   requires uidLength: len(arg0) == 16
 //@   ensures belowCap: ret0 == nil ==> arg1.NumExistingSessions < uf("sessionsCap", strOfBytes(arg0))
 //@ func (github.com/cbeuw/Cloak/internal/server/usermanager.UserManager).AuthenticateUser
 //@   flag trusted
